@@ -204,7 +204,7 @@ theorem getElem?_append_length {α : Type} (P R : List α) (x : α) :
     (P ++ x :: R)[P.length]? = some x := by
   induction P with
   | nil => rfl
-  | cons p ps ih => simpa using ih
+  | cons p ps ih => simp
 
 /-- `stop_matching` in closed form: `f`/`g` are the counts that remain afterwards. -/
 theorem stopMatching_spec (d : Dispatcher) (n : Nat) (T0 C0 : List (Item HId)) (E : List HId)
